@@ -20,7 +20,7 @@ PROPS = {
             'ensures clauses with ghost indices discharged by CBMC (loop contracts) + bounded harnesses against a reference model'),
     'C04': ('proof', 'Postcondition "ret != EOK => dest[gk] == 0" for arbitrary gk plus source-unchanged frame; bounded harnesses for overlap placements.',
             'ensures clauses + frame conditions (CBMC contracts); bounded harnesses with reference model'),
-    'C05': ('proof', 'Ghost handler-call counter and code in the contract of the reporting primitive; postcondition exactly-once with the returned code; RSIZE rejection before touch as frame condition. getenv_s and strerror_s loop-free against callee contracts (strcpy_s/strncpy_s/strcat_s as proved, libc assumed).',
+    'C05': ('proof', 'Ghost handler-call counter and code in the contract of the reporting primitive; postcondition exactly-once with the returned code; RSIZE rejection before touch as frame condition. getenv_s, strerror_s, asctime_s and ctime_s loop-free against callee contracts (strcpy_s/strncpy_s/strcat_s as proved, libc assumed).',
             'ghost-state contracts on the constraint-handler dispatch, ensures clauses on every entry point covered'),
     'C06': ('proof', 'Quantifier-free characterisation of the exact result (ghost indices) as postcondition; word-unrolled primitives by bounded enumeration.',
             'functional ensures clauses with ghost indices (CBMC loop contracts); bounded harnesses vs. reference functions'),
